@@ -29,6 +29,7 @@ func SigmaFull() []Step {
 		Filter(Regex(at(a), "a")), Filter(Cmp("==", OpP(rt(a)), LitNum(1))),
 		Filter(Cmp("!=", OpP(at(b)), OpP(rt(b)))),
 		Filter(Cmp("<=", OpP(at(a)), LitNum(1))), Filter(Cmp("<=", LitNum(1), OpP(at(a)))),
+		Filter(NotExists(at(a, Filter(Exists(at(b)))))),
 		Filter(Cmp(">", OpP(at(a)), OpP(rt(b)))), Filter(Cmp("<", OpP(rt(b)), OpP(at(a)))),
 		// filters: combinations
 		Filter(And(Exists(at(a)), Exists(at(b)))), Filter(Or(Exists(at(a)), Exists(at(b)))),
